@@ -358,6 +358,36 @@ def count_empty_nodes(shape):
     return 0
 
 
+def chain_nullables(pm):
+    """Symbols that derive the empty string only through their children: nullable, but without an empty
+    alternative of their own."""
+    return {x for x in nullables(pm) if () not in pm[x]}
+
+
+def empty_chain_node_at_end(shape, chain):
+    """True iff the tree (tree_shape form) has a node of a symbol in ``chain`` that covers no token and
+    lies behind the last token leaf (the text ends where that symbol starts)."""
+    order = []          # pre-order list of (name, number of leaves below, index of first leaf after start)
+
+    def walk(node, n_before):
+        name, v = node
+        if isinstance(v, tuple):
+            n = 0
+            idx = len(order)
+            order.append(None)
+            for c in v:
+                n += walk(c, n_before + n)
+            order[idx] = (name, n, n_before)
+            return n
+        if v is None:
+            order.append((name, 0, n_before))
+            return 0
+        order.append((name, 1, n_before))
+        return 1
+    total = walk(shape, 0)
+    return any(name in chain and n == 0 and before == total for name, n, before in order)
+
+
 # ============================================================================ size-bounded enumeration
 def alternatives(symbols, max_len):
     out = []
